@@ -74,6 +74,12 @@ def injections(rng, toks, defs, tier):
                   ("tuple-as-main", "(1, 2)"), ("tuple-in-main-arguments", "T0((1, 2))"), ("anonymous-component-in-main-index", "T0([1, 2][T0()(0)])")):
         no_main = "\n".join(l for l in base_plain.split("\n") if "component main" not in l) + "\n"
         out.append((nm, None, {"main.circom": no_main + "component main = %s;\n" % m}, ["main.circom"]))
+    # ... also when the files cannot be assembled into a program (review 'latest3' f2: the check was made on that path only): a template
+    # defined twice in a file that is only included — that error is not displayed
+    dup_lib = "pragma circom 2.0.0;\ntemplate DupL() { signal input a; signal output b; b <== a; }\ntemplate DupL() { signal input a; signal output b; b <== a; }\n"
+    for nm, m in (("anonymous-component-in-main-arguments-library", "T0(T0()(1))"), ("tuple-as-main-library", "(1, 2)")):
+        no_main = "\n".join(l for l in base_plain.split("\n") if "component main" not in l) + "\n"
+        out.append((nm, None, {"main.circom": no_main.replace(";\n", ";\ninclude \"dup_lib.circom\";\n", 1) + "component main = %s;\n" % m, "dup_lib.circom": dup_lib}, ["main.circom"]))
     out.append(("read-before-assignment", None, {"main.circom": base + "function badv(a) { var x; return a + x; }\n"}, ["main.circom"]))
     second = "pragma circom 2.0.0;\ntemplate Other() { signal input a; signal output b; b <== a; }\ncomponent main = Other();\n"
     out.append(("several-main-components", None, {"main.circom": base_plain, "second.circom": second}, ["main.circom", "second.circom"]))
